@@ -257,7 +257,13 @@ func genLife(seed int64, allow map[string]bool) *Scenario {
 			case 9:
 				ops = []Op{{Op: "reserve", ID: "@busted", Seat: -1, Chips: b.chips()}}
 			case 10:
-				ops = []Op{{Op: "leave", IDs: []string{"@out"}}}
+				if r.Intn(2) == 0 && len(b.ids) < b.sc.N {
+					// a player moved in by the competition layer (batch update), e.g. between the reset and the continue timer
+					id := b.newID()
+					ops = []Op{{Op: "update", Joins: []JoinSpec{{ID: id, Seat: -1, Chips: b.chips() + 5}}}, {Op: "join", ID: id}}
+				} else {
+					ops = []Op{{Op: "leave", IDs: []string{"@out"}}}
+				}
 			case 11:
 				ops = []Op{{Op: "setup", IDs: []string{"*"}}} // an extra set-up of the next hand by the competition layer
 				if at != "prefinish" && at != "settled" {
